@@ -13,6 +13,7 @@ from ..language import (
     DocumentNode,
     FragmentDefinitionNode,
     FragmentSpreadNode,
+    ObjectFieldNode,
     OperationDefinitionNode,
     SelectionSetNode,
     VariableDefinitionNode,
@@ -22,6 +23,7 @@ from ..language import (
     visit,
 )
 from ..pyutils import Undefined
+from ..type import get_named_type
 from ..utilities import TypeInfo, TypeInfoVisitor
 
 if TYPE_CHECKING:
@@ -82,8 +84,16 @@ class VariableUsageVisitor(Visitor):
     def enter_variable_definition(self, *_args: Any) -> VisitorAction:
         return self.SKIP
 
-    def enter_variable(self, node: VariableNode, *_args: Any) -> VisitorAction:
+    def enter_variable(
+        self, node: VariableNode, _key: Any, parent: Any, *_args: Any
+    ) -> VisitorAction:
         type_info = self._type_info
+        parent_type = type_info.get_parent_input_type()
+        if isinstance(parent, ObjectFieldNode):
+            # The variable is the value of an object field, so its parent is the
+            # input object type, even where the object literal stands for a list of
+            # one (a variable that is itself a list item keeps the list as parent).
+            parent_type = get_named_type(parent_type)
         fragment_definition = self._fragment_definition
         if fragment_definition:
             fragment_signature = type_info.get_fragment_signature_by_name()(
@@ -99,7 +109,7 @@ class VariableUsageVisitor(Visitor):
             usage = VariableUsage(
                 node,
                 type_info.get_input_type(),
-                type_info.get_parent_input_type(),
+                parent_type,
                 Undefined,
                 fragment_variable_definition,
             )
@@ -107,7 +117,7 @@ class VariableUsageVisitor(Visitor):
             usage = VariableUsage(
                 node,
                 type_info.get_input_type(),
-                type_info.get_parent_input_type(),
+                parent_type,
                 type_info.get_default_value(),
                 None,
             )
